@@ -1137,3 +1137,271 @@ Proof.
   inversion H6; subst.
   eapply bind_exact; eauto using same_set_refl. apply Q_of_nums_bind; auto.
 Qed.
+
+(* ====================================================================
+   6. The IR the analyzer produces is closed
+   ==================================================================== *)
+Tactic Notation "binv" hyp(H) "as" ident(a) ident(E) :=
+  apply obind_ok_inv in H; destruct H as (a & E & H).
+Ltac okeq H := injection H as H; subst.
+
+Definition K (e : expr) : Prop :=
+  forall L L2 io ts i, analyze_expr e (mk_env io L) ts = Ok i -> same_set L L2 -> Closed L2 io i.
+
+Lemma mapM_res {A B} (f : A -> res B) l : forall ys,
+  mapM f l = Ok ys -> Forall2 (fun x y => f x = Ok y) l ys.
+Proof.
+  induction l as [|x t IH]; simpl; intros ys H.
+  - okeq H. constructor.
+  - binv H as y Ey. binv H as ys' Eys. okeq H. constructor; auto.
+Qed.
+
+Lemma optM_closed o L L2 io ts o' : opt_all K o ->
+  optM (fun x => analyze_expr x (mk_env io L) ts) o = Ok o' -> same_set L L2 ->
+  forall v, o' = Some v -> Closed L2 io v.
+Proof.
+  destruct o as [x|]; simpl; intros Hk H Hs v Hv.
+  - binv H as y Ey. okeq H. injection Hv as <-. eapply Hk; eauto.
+  - okeq H. discriminate.
+Qed.
+
+Lemma param_closed p L L2 io r : param_all K p ->
+  analyze_param_with analyze_expr (mk_env io L) p = Ok r -> same_set L L2 ->
+  fst r = param_name p /\ (forall d, snd r = Some d -> Closed L2 io d).
+Proof.
+  destruct p as [n d]; simpl; intros Hk H Hs. binv H as d' Ed. okeq H. simpl. split; auto.
+  eapply optM_closed; eauto.
+Qed.
+
+Lemma Forall2_fst {A B C} (f : A -> res (C * B)) (g : A -> C) l rs :
+  Forall2 (fun x y => f x = Ok y) l rs -> (forall x y, In x l -> f x = Ok y -> fst y = g x) ->
+  map fst rs = map g l.
+Proof.
+  induction 1; simpl; intros Hg; auto. f_equal; [apply Hg; auto | apply IHForall2; intros; apply Hg; auto].
+Qed.
+
+Lemma params_closed ps Lin Lout io rs : Forall (param_all K) ps ->
+  Forall2 (fun x y => analyze_param_with analyze_expr (mk_env io Lin) x = Ok y) ps rs ->
+  same_set Lin Lout -> Forall (fun p => forall d, snd p = Some d -> Closed Lout io d) rs.
+Proof.
+  intros Hps H Hs. induction H; constructor; inversion Hps; subst; auto.
+  eapply param_closed in H; eauto. tauto.
+Qed.
+
+Lemma function_closed ps body L L2 io i : Forall (param_all K) ps -> K body ->
+  analyze_function_with analyze_expr ps body (mk_env io L) = Ok i -> same_set L L2 -> Closed L2 io i.
+Proof.
+  intros Hps Hb H Hs. unfold analyze_function_with in H. binv H as inner E.
+  pose proof (declare_names_env _ _ _ _ _ E) as ->. simpl in *. rewrite map_param_ident in *.
+  binv H as r0 E0. binv H as bd Eb. okeq H. apply mapM_res in E0.
+  assert (Hn : map fst r0 = map param_name ps).
+  { eapply Forall2_fst; eauto. intros p y Hin Hy. rewrite Forall_forall in Hps.
+    eapply param_closed in Hy; eauto using same_set_refl. tauto. }
+  assert (Hs' : same_set (rev (map param_name ps) ++ L) (map fst r0 ++ L2))
+    by (rewrite Hn; apply same_set_rev_app; auto).
+  constructor.
+  - eapply params_closed; eauto.
+  - eapply Hb; eauto.
+Qed.
+
+Lemma bind_closed b L L2 io r : bind_all K b ->
+  analyze_bind_with analyze_expr (mk_env io L) b = Ok r -> same_set L L2 ->
+  fst r = bind_name b /\ Closed L2 io (snd r).
+Proof.
+  destruct b as [n ps v]; simpl; intros [Hps Hv] H Hs. binv H as v' Ev. okeq H. simpl. split; auto.
+  destruct ps as [[l sp]|]; simpl in *; [eapply function_closed; eauto | eapply Hv; eauto].
+Qed.
+
+Lemma binds_closed bs L L2 io rs : Forall (bind_all K) bs ->
+  mapM (analyze_bind_with analyze_expr (mk_env io L)) bs = Ok rs -> same_set L L2 ->
+  map fst rs = map bind_name bs /\ Forall (fun r => Closed L2 io (snd r)) rs.
+Proof.
+  intros Hk H Hs. apply mapM_res in H. split.
+  - eapply Forall2_fst; eauto. intros b y Hin Hy. rewrite Forall_forall in Hk.
+    eapply bind_closed in Hy; eauto. tauto.
+  - induction H; constructor; inversion Hk; subst; auto.
+    eapply bind_closed in H; eauto. tauto.
+Qed.
+
+Lemma assert_closed a L L2 io r : assert_all K a ->
+  analyze_assert_with analyze_expr a (mk_env io L) = Ok r -> same_set L L2 -> ClosedAssert L2 io r.
+Proof.
+  destruct a as [sp c m]; simpl; intros [Hc Hm] H Hs. binv H as c' Ec. binv H as m' Em. okeq H. constructor.
+  - eapply Hc; eauto.
+  - eapply optM_closed; eauto.
+Qed.
+
+Lemma specs_closed cs io : Forall (spec_all K) cs -> forall L L2 r,
+  analyze_comp_spec_with analyze_expr cs (mk_env io L) = Ok r -> same_set L L2 ->
+  exists L2', ClosedSpecs L2 io (fst r) L2' /\ same_set (specs_out L cs) L2'.
+Proof.
+  induction 1 as [|c rest Hc Hrest IH]; intros L L2 r H Hs; simpl in H.
+  - okeq H. exists L2. split; [constructor | auto].
+  - destruct c as [v e|e]; simpl in Hc; binv H as i0 Ei; binv H as r0 E0; okeq H; simpl.
+    + unfold env_insert in E0; simpl in E0.
+      destruct (IH _ (id_value v :: L2) _ E0 (same_set_cons _ _ _ Hs)) as (L2' & H1 & H2).
+      exists L2'. split; auto. constructor; auto. eapply Hc; eauto.
+    + destruct (IH _ L2 _ E0 Hs) as (L2' & H1 & H2).
+      exists L2'. split; auto. constructor; auto. eapply Hc; eauto.
+Qed.
+
+Lemma args_closed args L L2 io : Forall (arg_all K) args -> same_set L L2 -> forall pos named r,
+  analyze_args_with analyze_expr (mk_env io L) args pos named = Ok r ->
+  Forall (Closed L2 io) pos -> Forall (fun a => Closed L2 io (snd a)) named ->
+  Forall (Closed L2 io) (fst r) /\ Forall (fun a => Closed L2 io (snd a)) (snd r).
+Proof.
+  intros Hk Hs. induction Hk as [|a rest Ha Hrest IH]; intros pos named r H Hp Hn; simpl in H.
+  - okeq H. auto.
+  - destruct a as [e|n e]; simpl in Ha.
+    + destruct named; [|discriminate]. binv H as x Ex. eapply IH; eauto.
+      apply Forall_app. split; auto. constructor; auto. eapply Ha; eauto.
+    + binv H as x Ex. eapply IH; eauto. apply Forall_app. split; auto. constructor; auto. simpl. eapply Ha; eauto.
+Qed.
+
+Lemma field_name_closed n L L2 io fields fixf r : fname_all K n ->
+  analyze_field_name_with analyze_expr (mk_env io L) fields fixf n = Ok r -> same_set L L2 ->
+  match fst (fst r) with IFix _ => True | IDyn e => Closed L2 io e end.
+Proof.
+  destruct n as [i|s sp|e sp]; simpl; intros Hk H Hs.
+  - unfold fix_field_name in H. destruct (assoc (id_value i) fixf); [destruct (nth_error fields n); discriminate|].
+    okeq H. simpl. auto.
+  - unfold fix_field_name in H. destruct (assoc s fixf); [destruct (nth_error fields n); discriminate|].
+    okeq H. simpl. auto.
+  - binv H as x Ex. okeq H. simpl. eapply Hk; eauto.
+Qed.
+
+Lemma members_closed ms L L2 io Li Li2 : Forall (member_all K) ms -> same_set L L2 -> same_set Li Li2 ->
+  forall locals asserts fields fixf r,
+  analyze_members_with analyze_expr (mk_env io L) (mk_env true Li) ms locals asserts fields fixf = Ok r ->
+  Forall (fun l => Closed Li2 true (snd l)) locals -> Forall (ClosedAssert Li2 true) asserts ->
+  Forall (ClosedField L2 io Li2) fields ->
+  (map fst (fst (fst r)) = map fst locals ++ map bind_name (member_locals ms)) /\
+  Forall (fun l => Closed Li2 true (snd l)) (fst (fst r)) /\ Forall (ClosedAssert Li2 true) (snd (fst r)) /\
+  Forall (ClosedField L2 io Li2) (snd r).
+Proof.
+  intros Hk Hs Hsi. induction Hk as [|m rest Hm Hrest IH]; intros locals asserts fields fixf r H Hl Ha Hf; simpl in H.
+  - okeq H. simpl. rewrite app_nil_r. auto.
+  - destruct m as [b|a|f]; simpl in Hm.
+    + binv H as l E. eapply bind_closed in E; eauto. destruct E as [E1 E2].
+      eapply IH in H; eauto.
+      * destruct H as (H1 & H2). split; auto. rewrite H1, map_app. simpl. rewrite E1, <- app_assoc. reflexivity.
+      * apply Forall_app. split; auto.
+    + binv H as a' E. eapply assert_closed in E; eauto. eapply IH in H; eauto. apply Forall_app. split; auto.
+    + binv H as r0 Ev. binv H as r1 E0.
+      assert (Hfn : fname_all K (field_fname f)) by (destruct f; simpl in *; tauto).
+      pose proof (field_name_closed _ _ _ _ _ _ _ Hfn E0 Hs) as Hn.
+      assert (Hv : Closed Li2 true r0).
+      { destruct f; simpl in *; [eapply (proj2 Hm); eauto |].
+        destruct Hm as (Hf1 & Hf2 & Hf3). exact (function_closed _ _ _ _ _ _ Hf2 Hf3 Ev Hsi). }
+      eapply IH in H; eauto. apply Forall_app. split; auto. constructor; auto.
+      destruct (fst (fst r1)); constructor; auto.
+Qed.
+
+Lemma objinside_closed o L L2 io i : obj_all K o ->
+  analyze_objinside_with analyze_expr o (mk_env io L) = Ok i -> same_set L L2 -> Closed L2 io i.
+Proof.
+  destruct o as [ms | l1 name plus body l2 cs]; simpl; intros Hk H Hs.
+  - binv H as inner E. pose proof (declare_names_env _ _ _ _ _ E) as ->. simpl in *. rewrite map_bind_ident in *.
+    binv H as r0 E0. destruct r0 as [[ls as_] fs]. okeq H.
+    (* the inner scope on the IR side is named after the locals the loop produced *)
+    assert (Hnames : map fst ls = map bind_name (member_locals ms)).
+    { eapply (members_closed ms L L io _ _ Hk (same_set_refl L) (same_set_refl _)) in E0; eauto.
+      simpl in E0. tauto. }
+    eapply (members_closed ms L L2 io _ (map fst ls ++ L2) Hk Hs) in E0; eauto.
+    + simpl in E0. destruct E0 as (_ & H1 & H2 & H3). constructor; auto.
+    + rewrite Hnames. apply same_set_rev_app; auto.
+  - destruct Hk as (Hl1 & Hn & Hb & Hl2 & Hcs).
+    binv H as r E. destruct r as [parts e']. pose proof (comp_spec_env _ _ _ _ E) as He. simpl in He. subst e'.
+    destruct (specs_closed _ _ Hcs _ _ _ E Hs) as (L2' & Hsp & Hso). simpl in Hsp.
+    binv H as inner E0. pose proof (declare_names_env _ _ _ _ _ E0) as ->. simpl in *. rewrite map_bind_ident in *.
+    binv H as r0 E1. binv H as r1 E2. binv H as fn Efn. binv H as fv Efv. okeq H.
+    assert (Hs0 : same_set (rev (map bind_name (l1 ++ l2)) ++ specs_out L cs) (map bind_name (l1 ++ l2) ++ L2'))
+      by (apply same_set_rev_app; auto).
+    assert (Hn1 : map fst (r0 ++ r1) = map bind_name (l1 ++ l2)).
+    { eapply binds_closed in E1; eauto. eapply binds_closed in E2; eauto.
+      rewrite !map_app. destruct E1 as [-> _]. destruct E2 as [-> _]. reflexivity. }
+    assert (Hs' : same_set (rev (map bind_name (l1 ++ l2)) ++ specs_out L cs) (map fst (r0 ++ r1) ++ L2'))
+      by (rewrite Hn1; auto).
+    apply CL_ObjectComp with (L' := L2').
+    + exact Hsp.
+    + apply Forall_app. split.
+      * eapply binds_closed in E1; eauto. tauto.
+      * eapply binds_closed in E2; eauto. tauto.
+    + eapply Hn; eauto.
+    + eapply Hb; eauto.
+Qed.
+
+Lemma import_closed mk sp path L io i :
+  (forall s, Closed L io (mk s sp)) -> analyze_import mk sp path = Ok i -> Closed L io i.
+Proof. intros Hm. destruct path; simpl; intros H; try discriminate. okeq H. apply Hm. Qed.
+
+Lemma optM_closed' o L L2 io ts o' :
+  optM (fun x => analyze_expr x (mk_env io L) ts) o = Ok o' -> opt_all K o -> same_set L L2 ->
+  forall v, o' = Some v -> Closed L2 io v.
+Proof. intros; eapply optM_closed; eauto. Qed.
+
+Ltac kauto :=
+  try match goal with
+      | Hx : K ?e, Hy : analyze_expr ?e _ _ = Ok ?r |- Closed _ _ ?r => eapply Hx; eauto
+      | |- forall v, _ = Some v -> Closed _ _ v => eapply optM_closed'; eauto
+      | Hy : analyze_objinside_with _ _ _ = Ok ?r |- Closed _ _ ?r => eapply objinside_closed; eauto
+      | Hy : analyze_assert_with _ _ _ = Ok ?r |- ClosedAssert _ _ ?r => eapply assert_closed; eauto
+      end.
+
+Theorem analyze_K : forall e, K e.
+Proof.
+  induction e using expr_ind'. rename H into Hc. intros L L2 io ts i H Hs.
+  destruct e; simpl in Hc; simpl in H;
+    repeat match goal with Hx : _ /\ _ |- _ => destruct Hx end.
+  - okeq H; constructor.
+  - okeq H; constructor.
+  - destruct io; simpl in H; [okeq H; constructor | discriminate].
+  - destruct io; simpl in H; [okeq H; constructor | discriminate].
+  - okeq H; constructor.
+  - okeq H; constructor.
+  - destruct (number_parses n); [okeq H; constructor | discriminate].
+  - eapply Hc; eauto.
+  - eapply objinside_closed; eauto.
+  - binv H as its E. okeq H. constructor. apply mapM_res in E.
+    induction E; constructor; inversion Hc; subst; auto.
+    match goal with Hx : K ?x, Hy : analyze_expr ?x _ _ = Ok _ |- _ => eapply Hx; eauto end.
+  - binv H as cs E. binv H as b Eb. okeq H.
+    destruct cs as [parts e']. pose proof (comp_spec_env _ _ _ _ E) as He. simpl in He. subst e'.
+    match goal with Hx : Forall _ specs |- _ =>
+      destruct (specs_closed _ _ Hx _ _ _ E Hs) as (L2' & Hsp & Hso) end. simpl in *.
+    apply CL_ArrayComp with (L' := L2'); auto. kauto.
+  - binv H as o E. okeq H. constructor. kauto.
+  - binv H as o E. binv H as x Ex. okeq H. constructor; kauto.
+  - binv H as r E. binv H as a' Ea. binv H as b' Eb. binv H as c' Ec. okeq H. constructor; kauto.
+  - destruct io; simpl in H; [okeq H; constructor | discriminate].
+  - destruct io; simpl in H; [| discriminate]. binv H as x Ex. okeq H. constructor. kauto.
+  - binv H as c E. binv H as r Er. okeq H.
+    eapply args_closed in Er; eauto. destruct Er as [Hp Hn]. constructor; auto. kauto.
+  - destruct (env_contains (mk_env io L) (id_value name)) eqn:E; [| discriminate]. okeq H.
+    constructor. apply Hs. apply env_contains_In in E. auto.
+  - binv H as inner E. pose proof (declare_names_env _ _ _ _ _ E) as ->. simpl in *. rewrite map_bind_ident in *.
+    binv H as bs Eb. binv H as x Ex. okeq H.
+    assert (Hn : map fst bs = map bind_name binds) by (eapply binds_closed in Eb; eauto using same_set_refl; tauto).
+    assert (Hs' : same_set (rev (map bind_name binds) ++ L) (map fst bs ++ L2))
+      by (rewrite Hn; apply same_set_rev_app; auto).
+    constructor.
+    + eapply binds_closed in Eb; eauto. tauto.
+    + kauto.
+  - binv H as c E. binv H as t' Et. binv H as f' Ef. okeq H. constructor; kauto.
+  - binv H as l' El. binv H as r' Er. okeq H. constructor; kauto.
+  - binv H as r' Er. okeq H. constructor. kauto.
+  - binv H as l' El. binv H as r' Er. okeq H. constructor; kauto.
+  - eapply function_closed; eauto.
+  - binv H as a' Ea. binv H as x Ex. okeq H. constructor; kauto.
+  - eapply import_closed; eauto. intros; constructor.
+  - eapply import_closed; eauto. intros; constructor.
+  - eapply import_closed; eauto. intros; constructor.
+  - binv H as m Em. okeq H. constructor. kauto.
+  - destruct io; simpl in H; [| discriminate]. binv H as x Ex. okeq H. constructor. kauto.
+Qed.
+
+(* headline: whatever the analyzer accepts is closed in its static scope *)
+Theorem analyze_closed : forall e vs io ts i,
+  analyze_expr e (mk_env io vs) ts = Ok i -> Closed vs io i.
+Proof. intros e vs io ts i H. exact (analyze_K e vs vs io ts i H (same_set_refl vs)). Qed.
+
